@@ -186,22 +186,44 @@ def audit_axioms(module, names):
     return res, out
 
 
-def forbidden_tokens():
-    """grep the Lean sources for constructs excluded from the trusted base (comments stripped)"""
-    hits = []
-    for dp, _, fns in os.walk(LEAN):
-        if ".lake" in dp:
+def import_closure(module):
+    """Lean source files (relative to LEAN) the module depends on, transitively (own library only)"""
+    seen, todo = set(), [module]
+    while todo:
+        m = todo.pop()
+        if m in seen:
             continue
-        for fn in fns:
-            if not fn.endswith(".lean"):
+        rel = m.replace(".", "/") + ".lean"
+        path = os.path.join(LEAN, rel)
+        if not os.path.exists(path):
+            continue
+        seen.add(m)
+        for line in open(path):
+            mm = re.match(r"\s*(?:public\s+)?import\s+((?:Cuckoo|Driver)[\w.]*)", line)
+            if mm:
+                todo.append(mm.group(1))
+    return sorted(seen)
+
+
+def forbidden_tokens(module=None):
+    """grep the Lean sources the module depends on (all sources if None) for constructs excluded from
+    the trusted base (comments stripped)"""
+    hits = []
+    if module is None:
+        files = []
+        for dp, _, fns in os.walk(LEAN):
+            if ".lake" in dp:
                 continue
-            p = os.path.join(dp, fn)
-            text = open(p).read()
-            text = re.sub(r"/-.*?-/", lambda m: "\n" * m.group(0).count("\n"), text, flags=re.S)
-            for i, line in enumerate(text.splitlines(), 1):
-                code = line.split("--")[0]
-                if FORBIDDEN.search(code):
-                    hits.append("%s:%d: %s" % (os.path.relpath(p, LEAN), i, line.strip()[:120]))
+            files += [os.path.join(dp, fn) for fn in fns if fn.endswith(".lean")]
+    else:
+        files = [os.path.join(LEAN, m.replace(".", "/") + ".lean") for m in import_closure(module)]
+    for p in files:
+        text = open(p).read()
+        text = re.sub(r"/-.*?-/", lambda m: "\n" * m.group(0).count("\n"), text, flags=re.S)
+        for i, line in enumerate(text.splitlines(), 1):
+            code = line.split("--")[0]
+            if FORBIDDEN.search(code):
+                hits.append("%s:%d: %s" % (os.path.relpath(p, LEAN), i, line.strip()[:120]))
     return hits
 
 
@@ -364,7 +386,7 @@ def lean_phase(res, pid, gen_fn=None, extra_targets=(), thorough_modules=()):
         else:
             good += 1
     res.discharged = good
-    hits = forbidden_tokens()
+    hits = forbidden_tokens(module)
     if hits:
         res.add_broken("forbidden construct in Lean sources", "\n".join(hits[:20]))
     if res.tier == "thorough":
